@@ -8,7 +8,10 @@ package main
 //
 // A case is one tree on one fresh interpreter plus a sequence of events:
 //   {"op":"out","al":[kind,k],"p":[name..],"rt":route,"v":n,"res":R}
-//   {"op":"in","pp":[name..],"m":name,"mode":m,"key":name,"v":n,"style":s,"res":R}
+//   {"op":"in","pp":[name..],"m":name,"mode":m,"key":name,"v":n,"style":s,"form":f,"res":R}
+//   {"op":"rel","fp":[name..],"c":k,"p":[name..],"rt":route,"fs":s,"res":R}
+//     a dot path written outside (the names p[c..] of the member at p, relative to the
+//     package at p[:c]) handed as a value to code of the package at fp
 // name = [first rune, text]; node = ["val",n] | ["fn",n] | ["hash",[[name,node]..]]
 // | ["pkg",[[name,node]..]]; R = ["val",X] | ["err",class] | ["panic",msg].
 // The program texts are a function of these fields and of the position of the
@@ -303,6 +306,41 @@ func pkFirstValKey(h *pkNode) string {
 	return ""
 }
 
+// pkDotForm: the forms in which the code of package number id uses member i
+// through a dot path (read: operand of a builtin / argument of a function;
+// write: set / prefix / infix assignment); they rotate over members and packages.
+func pkDotForm(id, i int) (string, string) {
+	return []string{"plus", "uarg"}[(id+i)%2], []string{"set", "prefix", "infix"}[(id+i)%3]
+}
+
+// pkDotKey: the name that the code of a package appends to a hash / nested
+// package member of its own to read an integer through a dot path (the first
+// value key of a hash; the first capitalised value member of a package).
+func pkDotKey(n *pkNode) string {
+	switch n.kind {
+	case "hash":
+		return pkFirstValKey(n)
+	case "pkg":
+		for _, e := range n.ents {
+			if e.node.kind == "val" && pkClass(e.name) == "U" {
+				return e.name
+			}
+		}
+	}
+	return ""
+}
+
+func pkClass(name string) string {
+	r, _ := utf8.DecodeRuneInString(name)
+	switch {
+	case (r >= 'A' && r <= 'Z') || r == 196 || r == 201 || r == 916:
+		return "U"
+	case (r >= 'a' && r <= 'z') || r == 228 || r == 233 || r == 948:
+		return "l"
+	}
+	return "n"
+}
+
 func pkRenderHash(h *pkNode) string {
 	var sb strings.Builder
 	sb.WriteString("(hash")
@@ -343,6 +381,12 @@ func pkHashFns(h *pkNode) []int {
 // that uses a private member of the package it was defined in.  Accessors are
 // capitalised functions defined in the package body (prefix Zq), also stored
 // in the global registry zqreg so that they can be called without a dot path.
+//
+// pkAcc (a field of the case) adds the accessors that only some cases use:
+// "dot": the code of the package uses its members through dot paths (ZqD/E/G/U/T/I);
+// "recv": functions that receive a value from outside (ZqId, ZqLet, ...).
+var pkAcc string
+
 func pkRenderPkg(n, parent *pkNode, strName bool) string {
 	var sb strings.Builder
 	if strName {
@@ -367,8 +411,32 @@ func pkRenderPkg(n, parent *pkNode, strName bool) string {
 		case "pkg":
 			fmt.Fprintf(&sb, "\n (def %s %s)", e.name, pkRenderPkg(e.node, n, false))
 		}
+		if pkAcc == "recv" {
+			continue
+		}
 		fmt.Fprintf(&sb, " (defn ZqR%d [] %s)", i, e.name)
 		reg(fmt.Sprintf("R%d", i))
+		if pkAcc == "dot" {
+			// the code of the package uses its own members through dot paths: as the
+			// operand of a builtin / the argument of a (global) function, and as the
+			// target of an assignment (one form each per member, see pkDotForm)
+			rd, wr := pkDotForm(n.id, i)
+			l := map[string]string{"plus": "(+ 0 %s)", "uarg": "(zqid %s)"}[rd]
+			if e.node.kind == "val" {
+				fmt.Fprintf(&sb, " (defn ZqD%d [] "+l+")", i, "."+e.name)
+				reg(fmt.Sprintf("D%d", i))
+			}
+			if k := pkDotKey(e.node); k != "" {
+				fmt.Fprintf(&sb, " (defn ZqG%d [] "+l+")", i, e.name+"."+k)
+				reg(fmt.Sprintf("G%d", i))
+			}
+			if k := pkFirstValKey(e.node); k != "" && e.node.kind == "hash" {
+				w := map[string]string{"set": "(set %s.%s zqv)", "prefix": "(= %s.%s zqv)", "infix": "{%s.%s = zqv}"}[wr]
+				fmt.Fprintf(&sb, " (defn ZqS%d [zqv] "+w+")", i, e.name, k)
+				reg(fmt.Sprintf("S%d", i))
+			}
+			continue
+		}
 		if i%2 == 0 {
 			fmt.Fprintf(&sb, " (defn ZqW%d [zqv] (set %s zqv))", i, e.name)
 		} else {
@@ -385,6 +453,24 @@ func pkRenderPkg(n, parent *pkNode, strName bool) string {
 				reg(fmt.Sprintf("S%d", i))
 			}
 		}
+	}
+	// functions of the package that receive a value from outside: as their argument,
+	// from a callback, inside an array / a list / a hash
+	for _, d := range [][2]string{
+		{"Id", "[zqx] zqx"},
+		{"Let", "[zqf] (let [zqv (zqf)] zqv)"},
+		{"Def", "[zqf] (def zqd (zqf)) zqd"},
+		{"Plus", "[zqf] (+ 0 (zqf))"},
+		{"Arg", "[zqf] (ZqId (zqf))"},
+		{"First", "[zqa] (let [zqv (aget zqa 0)] zqv)"},
+		{"Car", "[zql] (let [zqv (car zql)] zqv)"},
+		{"Hv", "[zqh] (let [zqv (hget zqh k:)] zqv)"},
+	} {
+		if pkAcc != "recv" {
+			continue
+		}
+		fmt.Fprintf(&sb, "\n (defn Zq%s %s)", d[0], d[1])
+		reg(d[0])
 	}
 	if m := pkOuterMarker(n, parent); m != "" {
 		fmt.Fprintf(&sb, "\n (defn ZqO [] %s)", m)
@@ -406,6 +492,10 @@ type pkEvent struct {
 	Mode  string   `json:"mode,omitempty"`
 	Key   any      `json:"key,omitempty"`
 	Style string   `json:"style,omitempty"`
+	Form  string   `json:"form,omitempty"` // in: how the accessor uses the dot path
+	FP    []any    `json:"fp,omitempty"`   // rel: path of the package whose code receives the dot path
+	C     int      `json:"c,omitempty"`    // rel: the written dot path is p[c:]
+	Fs    string   `json:"fs,omitempty"`   // rel: how the function of the package is named
 	V     int      `json:"v"`
 	Res   any      `json:"res"`
 	Texts []string `json:"texts,omitempty"` // replay output only
@@ -416,6 +506,7 @@ type pkEvent struct {
 	p    []string
 	pp   []string
 	m    string
+	fp   []string
 }
 
 // MarshalJSON writes only the fields of the event's kind (and never null).
@@ -423,12 +514,18 @@ func (e *pkEvent) MarshalJSON() ([]byte, error) {
 	m := map[string]any{"op": e.Op, "v": e.V, "res": e.Res}
 	if e.Op == "out" {
 		m["al"], m["p"], m["rt"] = e.Al, e.P, e.Rt
+	} else if e.Op == "rel" {
+		fp := e.FP
+		if fp == nil {
+			fp = []any{}
+		}
+		m["fp"], m["c"], m["p"], m["rt"], m["fs"] = fp, e.C, e.P, e.Rt, e.Fs
 	} else {
 		pp := e.PP
 		if pp == nil {
 			pp = []any{}
 		}
-		m["pp"], m["m"], m["mode"], m["key"], m["style"] = pp, e.M, e.Mode, e.Key, e.Style
+		m["pp"], m["m"], m["mode"], m["key"], m["style"], m["form"] = pp, e.M, e.Mode, e.Key, e.Style, e.Form
 	}
 	if e.Texts != nil {
 		m["texts"] = e.Texts
@@ -440,10 +537,12 @@ func (e *pkEvent) MarshalJSON() ([]byte, error) {
 }
 
 type pkCase struct {
-	ID   string     `json:"id"`
-	Mk   string     `json:"mk"`
-	Tree any        `json:"tree"`
-	Evs  []*pkEvent `json:"evs"`
+	ID    string     `json:"id"`
+	Mk    string     `json:"mk"`
+	Decoy bool       `json:"decoy,omitempty"` // globals named like the members exist
+	Acc   string     `json:"acc,omitempty"`   // additional accessors in the package bodies (pkAcc)
+	Tree  any        `json:"tree"`
+	Evs   []*pkEvent `json:"evs"`
 
 	root *pkNode
 }
@@ -452,8 +551,22 @@ var pkAliasKinds = []string{"direct", "def", "let", "param", "inpkgU", "inpkgl",
 var pkReadRoutes = []string{"plus", "typeq", "uarg", "rhs", "rhsdef", "rhsset", "let", "star", "call"}
 var pkWriteRoutes = []string{"infix", "prefix", "set", "infixdef", "hset"}
 
+// the dot path is one of several targets of an infix assignment
+var pkMultiRoutes = []string{"multi1", "multi2"}
+
+// a dot path written outside travels as a value into code of the package:
+// as the argument of one of its functions / carried by data
+var pkArgRoutes = []string{"arg", "apply", "map"}
+var pkDataRoutes = []string{"cblet", "cbtail", "cbdef", "cbplus", "cbarg", "first", "car", "hval"}
+var pkFuncStyles = []string{"dot", "val", "alias", "reg"}
+
 func pkIsWrite(rt string) bool {
 	for _, w := range pkWriteRoutes {
+		if w == rt {
+			return true
+		}
+	}
+	for _, w := range pkMultiRoutes {
 		if w == rt {
 			return true
 		}
@@ -592,6 +705,10 @@ func pkAccessTexts(j int, kind string, k int, p []string, rt string, v int) []st
 		acc = fmt.Sprintf("{%s := %d}", d, v)
 	case "hset":
 		acc = fmt.Sprintf("(hset %s %s: %d)", d, p[len(p)-1], v)
+	case "multi1":
+		acc = fmt.Sprintf("(begin (def zt%d 0) {%s, zt%d = %d, 0})", j, d, j, v)
+	case "multi2":
+		acc = fmt.Sprintf("(begin (def zt%d 0) {zt%d, %s = 0, %d})", j, j, d, v)
 	}
 	switch {
 	case wrapLet:
@@ -622,6 +739,10 @@ func pkInText(root *pkNode, ev *pkEvent) []string {
 		acc, args = fmt.Sprintf("S%d", pk.index(ev.m)), fmt.Sprintf(" %d", ev.V)
 	case "rdouter":
 		acc = "O"
+	case "rddot":
+		acc = fmt.Sprintf("D%d", pk.index(ev.m))
+	case "rdkey":
+		acc = fmt.Sprintf("G%d", pk.index(ev.m))
 	}
 	if ev.Style == "dot" {
 		path := "hi"
@@ -631,6 +752,213 @@ func pkInText(root *pkNode, ev *pkEvent) []string {
 		return []string{fmt.Sprintf("(%s.Zq%s%s)\n", path, acc, args)}
 	}
 	return []string{fmt.Sprintf("((hget zqreg \"p%d%s\")%s)\n", pk.id, acc, args)}
+}
+
+// pkRelText: the dot path that outside code writes for the member at p relative
+// to the package at p[:c].
+func pkRelText(p []string, c int) string {
+	rel := p[c:]
+	if len(rel) == 1 {
+		return "." + rel[0]
+	}
+	return strings.Join(rel, ".")
+}
+
+var pkRelAcc = map[string]string{"arg": "Id", "apply": "Id", "map": "Id", "cblet": "Let", "cbtail": "Let", "cbdef": "Def",
+	"cbplus": "Plus", "cbarg": "Arg", "first": "First", "car": "Car", "hval": "Hv"}
+
+// pkRelTexts renders the program texts of one "rel" event: outside code hands
+// the dot path to a function of the package at fp.
+func pkRelTexts(j int, root *pkNode, ev *pkEvent) []string {
+	pk := root.at(ev.fp)
+	if pk == nil || pk.kind != "pkg" {
+		return nil
+	}
+	acc := pkRelAcc[ev.Rt]
+	path := "hi"
+	if len(ev.fp) > 0 {
+		path += "." + strings.Join(ev.fp, ".")
+	}
+	var texts []string
+	var f string
+	switch ev.Fs {
+	case "dot":
+		f = path + ".Zq" + acc
+	case "val":
+		texts = append(texts, fmt.Sprintf("(def zf%d %s.Zq%s)\n", j, path, acc))
+		f = fmt.Sprintf("zf%d", j)
+	case "alias":
+		texts = append(texts, fmt.Sprintf("(def zq%d %s)\n", j, path))
+		f = fmt.Sprintf("zq%d.Zq%s", j, acc)
+	default: // reg
+		texts = append(texts, fmt.Sprintf("(def zf%d (hget zqreg \"p%d%s\"))\n", j, pk.id, acc))
+		f = fmt.Sprintf("zf%d", j)
+	}
+	d := pkRelText(ev.p, ev.C)
+	var t string
+	switch ev.Rt {
+	case "arg":
+		t = fmt.Sprintf("(%s %s)", f, d)
+	case "apply":
+		t = fmt.Sprintf("(apply %s [%s])", f, d)
+	case "map":
+		t = fmt.Sprintf("(aget (map %s [%s]) 0)", f, d)
+	case "cblet", "cbdef", "cbplus", "cbarg":
+		t = fmt.Sprintf("(%s (fn [] (quote %s)))", f, d)
+	case "cbtail":
+		t = fmt.Sprintf("(%s (fn [] %s))", f, d)
+	case "first":
+		t = fmt.Sprintf("(%s [%s])", f, d)
+	case "car":
+		t = fmt.Sprintf("(%s (quote (%s)))", f, d)
+	case "hval":
+		t = fmt.Sprintf("(%s (hash k: %s))", f, d)
+	}
+	return append(texts, t+"\n")
+}
+
+// lookupFrom: the member that the name nm denotes for code of the package at
+// fp (its own member, else the member of the innermost enclosing package that
+// defines nm): the path of the package found, or ok = false.
+func (g *pkGen) lookupFrom(fp []string, nm string) ([]string, bool) {
+	for j := len(fp); j >= 0; j-- {
+		if a := g.root.at(fp[:j]); a != nil && a.kind == "pkg" && a.find(nm) != nil {
+			return fp[:j], true
+		}
+	}
+	return nil, false
+}
+
+func (g *pkGen) rel(fp []string, c int, p []string, rt, fs string) {
+	if fs == "dot" || fs == "alias" || fs == "val" {
+		if !g.allPkgHops(fp) {
+			fs = "reg"
+		}
+	}
+	if (rt == "apply" || rt == "map") && (fs == "dot" || fs == "alias") {
+		fs = "val"
+	}
+	g.evs = append(g.evs, &pkEvent{Op: "rel", FP: pkNames(fp), C: c, P: pkNames(p), Rt: rt, Fs: fs,
+		p: append([]string{}, p...), fp: append([]string{}, fp...)})
+}
+
+// relTargets: for the package at op, the paths of the members that a dot path
+// of at most maxHops names written relative to it can name.
+func (g *pkGen) relTargets(op []string, maxHops int) [][]string {
+	var out [][]string
+	for _, q := range g.root.at(op).allPaths() {
+		if len(q) <= maxHops {
+			out = append(out, append(append([]string{}, op...), q...))
+		}
+	}
+	return out
+}
+
+// relEvents: every package of the tree as the owner of the first name of the
+// written path; the code that receives the path belongs to the owner or to a
+// package nested in it (as long as that one does not define the name itself);
+// routes and function styles rotate (every: all routes).
+func (g *pkGen) relEvents(routes []string, every bool, nrot, maxHops int, filter func(idx int) bool) {
+	pkgs := [][]string{{}}
+	for _, p := range g.root.allPaths() {
+		if g.root.at(p).kind == "pkg" {
+			pkgs = append(pkgs, p)
+		}
+	}
+	cnt, idx := 0, 0
+	for _, op := range pkgs {
+		for _, p := range g.relTargets(op, maxHops) {
+			idx++
+			if filter != nil && !filter(idx) {
+				continue
+			}
+			n := g.root.at(p)
+			// where the receiving code may live
+			fps := [][]string{op}
+			for _, q := range pkgs {
+				if len(q) > len(op) && len(fps) < 3 && pkHasPrefix(q, op) {
+					if own, ok := g.lookupFrom(q, p[len(op)]); ok && len(own) == len(op) {
+						fps = append(fps, q)
+					}
+				}
+			}
+			var app []string
+			for _, rt := range routes {
+				if rt == "cbplus" && n.kind != "val" {
+					continue
+				}
+				app = append(app, rt)
+			}
+			rts := app
+			if !every && len(app) > nrot {
+				rts = nil
+				for i := 0; i < nrot; i++ {
+					rts = append(rts, app[(cnt+i)%len(app)])
+				}
+			}
+			for _, rt := range rts {
+				cnt++
+				fp := fps[cnt%len(fps)]
+				g.rel(fp, len(op), p, rt, pkFuncStyles[cnt%len(pkFuncStyles)])
+			}
+		}
+	}
+}
+
+func pkHasPrefix(q, pre []string) bool {
+	if len(q) < len(pre) {
+		return false
+	}
+	for i := range pre {
+		if q[i] != pre[i] {
+			return false
+		}
+	}
+	return true
+}
+
+// insideDotEvents: the code of every package uses its own members through dot
+// paths -- a value member as .m, a key of a hash member and a capitalised
+// member of a nested package as m.k -- as the operand of a builtin, as the
+// argument of a function, and as the target of set / prefix / infix
+// assignment (each write is read back by plain name).
+func (g *pkGen) insideDotEvents() {
+	pkgs := [][]string{{}}
+	for _, p := range g.root.allPaths() {
+		if g.root.at(p).kind == "pkg" {
+			pkgs = append(pkgs, p)
+		}
+	}
+	for _, pp := range pkgs {
+		pk := g.root.at(pp)
+		styles := []string{"reg"}
+		if g.allPkgHops(pp) {
+			styles = []string{"dot", "reg"}
+		}
+		for _, st := range styles {
+			for i, e := range pk.ents {
+				rd, wr := pkDotForm(pk.id, i)
+				if e.node.kind == "val" {
+					g.inForm(pp, e.name, "rddot", st, rd)
+				}
+				if pkDotKey(e.node) != "" {
+					g.inForm(pp, e.name, "rdkey", st, rd)
+				}
+				if e.node.kind == "hash" && pkFirstValKey(e.node) != "" {
+					g.inForm(pp, e.name, "wrkey", st, wr)
+					g.in(pp, e.name, "rd", "reg")
+				}
+			}
+		}
+	}
+}
+
+func (g *pkGen) inForm(pp []string, m, mode, style, form string) {
+	n := len(g.evs)
+	g.in(pp, m, mode, style)
+	if len(g.evs) > n {
+		g.evs[len(g.evs)-1].Form = form
+	}
 }
 
 func (g *pkGen) out(kind string, k int, p []string, rt string) {
@@ -683,6 +1011,8 @@ func (g *pkGen) in(pp []string, m, mode, style string) {
 	case "wrkey":
 		key = pkFirstValKey(pk.find(m))
 		v = g.fresh()
+	case "rdkey":
+		key = pkDotKey(pk.find(m))
 	}
 	g.evs = append(g.evs, &pkEvent{Op: "in", PP: pkNames(pp), M: pkName(m), Mode: mode, Key: pkName(key), V: v, Style: style,
 		pp: append([]string{}, pp...), m: m})
@@ -822,6 +1152,20 @@ func (g *pkGen) plans(kinds, routes []string, every, allK bool, nrot int) func(p
 	}
 }
 
+// multiPlans: the dot path as either target of an assignment to two targets,
+// through every alias kind (all: every kind for every path; else one kind per
+// path, in rotation).
+func (g *pkGen) multiPlans(all bool) func(p []string) []pkPlan {
+	if all {
+		return g.plans(pkAliasKinds, pkMultiRoutes, true, false, 0)
+	}
+	kc := 0
+	return func(p []string) []pkPlan {
+		kc++
+		return g.plans([]string{pkAliasKinds[kc%len(pkAliasKinds)]}, pkMultiRoutes, true, false, 0)(p)
+	}
+}
+
 func (g *pkGen) plansRand(r *rng, nr int, routes []string) func(p []string) []pkPlan {
 	return func(p []string) []pkPlan {
 		n := g.root.at(p)
@@ -902,6 +1246,40 @@ func pkOutcome(env *zygo.Zlisp, o outcome) (any, string) {
 	return []any{"budget", "x"}, ""
 }
 
+// pkDecoys: global definitions named like the members of the packages (a value
+// for a value member, a hash / package with the key that the accessors use for
+// a hash / package member), so that a lookup that leaves the package finds
+// something instead of failing.
+func pkDecoys(root *pkNode) []string {
+	var out []string
+	seen := map[string]bool{}
+	var rec func(n *pkNode)
+	rec = func(n *pkNode) {
+		for _, e := range n.ents {
+			if n.kind == "pkg" && !seen[e.name] {
+				switch e.node.kind {
+				case "val":
+					seen[e.name] = true
+					out = append(out, fmt.Sprintf("(def %s -7)\n", e.name))
+				case "hash":
+					if k := pkFirstValKey(e.node); k != "" {
+						seen[e.name] = true
+						out = append(out, fmt.Sprintf("(def %s (hash %s: -7))\n", e.name, k))
+					}
+				case "pkg":
+					if k := pkDotKey(e.node); k != "" {
+						seen[e.name] = true
+						out = append(out, fmt.Sprintf("(def %s (package zqdecoy (def %s -7)))\n", e.name, k))
+					}
+				}
+			}
+			rec(e.node)
+		}
+	}
+	rec(root)
+	return out
+}
+
 // pkRun executes a case on a fresh interpreter: build the tree, then the texts
 // of every event (the result of an event is its first failure, else the value
 // of its last text).
@@ -914,6 +1292,7 @@ func pkRun(c *pkCase, verbose bool) {
 			fatal("case %s: setup failed: %s: %s", c.ID, trunc(text, 300), o.Err)
 		}
 	}
+	pkAcc = c.Acc
 	must("(def zqreg (hash))\n")
 	must("(defn zqid [x] x)\n")
 	switch c.Mk {
@@ -933,11 +1312,19 @@ func pkRun(c *pkCase, verbose bool) {
 	default:
 		must("(def hi " + pkRenderPkg(c.root, nil, false) + ")\n")
 	}
+	if c.Decoy {
+		for _, t := range pkDecoys(c.root) {
+			must(t)
+		}
+	}
 	for j, ev := range c.Evs {
 		var texts []string
-		if ev.Op == "out" {
+		switch ev.Op {
+		case "out":
 			texts = pkAccessTexts(j+1, ev.kind, ev.k, ev.p, ev.Rt, ev.V)
-		} else {
+		case "rel":
+			texts = pkRelTexts(j+1, c.root, ev)
+		default:
 			texts = pkInText(c.root, ev)
 		}
 		var res any = []any{"err", "notext"}
@@ -1014,6 +1401,9 @@ func pkParseCase(line []byte) *pkCase {
 				ev.k = int(f)
 			}
 			ev.p = pkParsePath(ev.P)
+		} else if ev.Op == "rel" {
+			ev.p = pkParsePath(ev.P)
+			ev.fp = pkParsePath(ev.FP)
 		} else {
 			ev.pp = pkParsePath(ev.PP)
 			ev.m = pkParseName(ev.M)
@@ -1048,16 +1438,35 @@ func init() {
 			return 0
 		}
 		idx := 0
+		decoy := false
+		only := os.Getenv("ZV_C18_ONLY")
 		emit := func(id, mk string, root *pkNode, fill func(g *pkGen)) {
 			mine := c.mine(idx)
 			idx++
+			if only != "" { // development aid: ZV_C18_ONLY=substring,substring
+				hit := false
+				for _, o := range strings.Split(only, ",") {
+					hit = hit || strings.Contains(id, o)
+				}
+				if !hit {
+					return
+				}
+			}
 			if !mine {
 				return
 			}
 			pkRenumber(root)
 			g := &pkGen{root: root}
 			fill(g)
-			pc := &pkCase{ID: id, Mk: mk, Tree: root.json(), Evs: g.evs, root: root}
+			acc := ""
+			for _, ev := range g.evs {
+				if ev.Op == "rel" {
+					acc = "recv"
+				} else if ev.Op == "in" && ev.Form != "" {
+					acc = "dot"
+				}
+			}
+			pc := &pkCase{ID: id, Mk: mk, Decoy: decoy, Acc: acc, Tree: root.json(), Evs: g.evs, root: root}
 			pkRun(pc, false)
 			w.write(pc)
 		}
@@ -1092,6 +1501,37 @@ func init() {
 		for mi, mk := range mks {
 			emit(fmt.Sprintf("full-inside-%d", mi), mk, full(), func(g *pkGen) { g.insideEvents() })
 		}
+		// (1b) the code of the packages uses its own members through dot paths; once
+		// more with globals named like the members
+		for mi, mk := range []string{"def", "import"} {
+			decoy = mi == 1
+			emit(fmt.Sprintf("full-insidedot-%d", mi), mk, full(), func(g *pkGen) { g.insideDotEvents() })
+		}
+		decoy = false
+		// (1c) a dot path written outside handed to code of the package as an argument
+		// (arg-*) and inside data / from a callback (data-*): every package as the
+		// owner, every path of at most 3 names below it; the quick tier rotates 2
+		// argument routes and 2 data routes per path, in slices of the targets
+		nslice := 3
+		relMks := []string{"def", "import", "source"} // (the infix form of the full tree takes long to parse)
+		for sl := 0; sl < nslice; sl++ {
+			sl := sl
+			filter := func(idx int) bool { return idx%nslice == sl }
+			emit(fmt.Sprintf("full-relarg-%d", sl), relMks[sl%len(relMks)], full(), func(g *pkGen) {
+				g.relEvents(pkArgRoutes, thorough, 2, 3, filter)
+			})
+			emit(fmt.Sprintf("full-reldata-%d", sl), relMks[(sl+1)%len(relMks)], full(), func(g *pkGen) {
+				g.relEvents(pkDataRoutes, thorough, 2, 3, filter)
+			})
+		}
+		// (1d) the dot path as one of several targets of an infix assignment: every
+		// path, both positions, the alias kinds rotate (thorough: every alias kind)
+		for ci, ch := range chunkPaths(ftargets, 160) {
+			ch := ch
+			emit(fmt.Sprintf("full-multi-%d", ci), "def", full(), func(g *pkGen) {
+				g.accessEvents(ch, func(p []string) []pkPlan { return nil }, g.multiPlans(thorough), false)
+			})
+		}
 
 		// (2) packages inside hashes inside packages; names shared by members and keys
 		special := []struct {
@@ -1112,6 +1552,15 @@ func init() {
 				}
 			}
 			emit(sp.name+"-inside", "def", treeOf(sp.build), func(g *pkGen) { g.insideEvents() })
+			emit(sp.name+"-insidedot", "def", treeOf(sp.build), func(g *pkGen) { g.insideDotEvents() })
+			decoy = true
+			emit(sp.name+"-insidedot-decoy", "def", treeOf(sp.build), func(g *pkGen) { g.insideDotEvents() })
+			decoy = false
+			emit(sp.name+"-relarg", "def", treeOf(sp.build), func(g *pkGen) { g.relEvents(pkArgRoutes, true, 0, 4, nil) })
+			emit(sp.name+"-reldata", "def", treeOf(sp.build), func(g *pkGen) { g.relEvents(pkDataRoutes, thorough, 3, 4, nil) })
+			emit(sp.name+"-multi", "def", treeOf(sp.build), func(g *pkGen) {
+				g.accessEvents(targets, func(p []string) []pkPlan { return nil }, g.multiPlans(thorough), false)
+			})
 		}
 
 		// (3) seeded random trees: random names (also non-ASCII), member subsets,
@@ -1134,6 +1583,26 @@ func init() {
 				} else {
 					g.accessEvents(root.allPaths(), g.plansRand(r, 4, pkReadRoutes), g.plansRand(r, 2, pkWriteRoutes), false)
 				}
+			})
+		}
+		// (3b) the same trees (every 8th) for the dot paths handed over as values, the
+		// dot paths used by the code of the package, and the assignments to several targets
+		for i := 0; i < nrand; i += 8 {
+			newRoot := func() (*pkNode, *rng) {
+				r := newRng(c.seed, uint64(1000+i))
+				return (&pkBuilder{}).randPkg(r, 1), r
+			}
+			root, _ := newRoot()
+			emit(fmt.Sprintf("rand-relarg-%d-%d", c.seed, i), "def", root, func(g *pkGen) { g.relEvents(pkArgRoutes, thorough, 1, 3, nil) })
+			root, _ = newRoot()
+			emit(fmt.Sprintf("rand-reldata-%d-%d", c.seed, i), "def", root, func(g *pkGen) { g.relEvents(pkDataRoutes, thorough, 1, 3, nil) })
+			root, _ = newRoot()
+			decoy = i%16 == 8
+			emit(fmt.Sprintf("rand-insidedot-%d-%d", c.seed, i), "def", root, func(g *pkGen) { g.insideDotEvents() })
+			decoy = false
+			root, r := newRoot()
+			emit(fmt.Sprintf("rand-multi-%d-%d", c.seed, i), "def", root, func(g *pkGen) {
+				g.accessEvents(root.allPaths(), func(p []string) []pkPlan { return nil }, g.plansRand(r, 1, pkMultiRoutes), false)
 			})
 		}
 		return 0
